@@ -29,8 +29,8 @@ ANCHOR_FILES = ["src/ropt/ensemble_evaluator/_ensemble_evaluator.py", "src/ropt/
 RULE = ("case = one configuration; non-trivial if the run made at least one gradient (perturbation) request or is a population run; distinct key = case index; "
         "monitor_counters: traces compared, evaluator calls hashed")
 ASSUMPTIONS = ["differential_evolution is only required to be reproducible when given an explicit 'seed' option (as the statement says)"]
-REQUIRED = {"quick": {"trace_pairs_compared": 295, "evaluator_calls_hashed": 2515, "foreign_runs_interleaved": 144, "seed_sensitivity_checked": 30, "fresh_process_runs": 6, "same_step_reruns": 200, "generator_object_seed_reruns": 30, "fresh_process_runs_with_several_samplers": 120, "runs_with_a_foreign_run_inside": 70, "first_drawing_sampler_without_variables": 5, "__nontrivial__": 63},
-            "thorough": {"trace_pairs_compared": 6075, "evaluator_calls_hashed": 57264, "foreign_runs_interleaved": 3000, "seed_sensitivity_checked": 700, "fresh_process_runs": 75, "same_step_reruns": 4000, "generator_object_seed_reruns": 600, "fresh_process_runs_with_several_samplers": 700, "runs_with_a_foreign_run_inside": 1400, "__nontrivial__": 1245}}
+REQUIRED = {"quick": {"trace_pairs_compared": 295, "evaluator_calls_hashed": 2515, "foreign_runs_interleaved": 144, "seed_sensitivity_checked": 30, "fresh_process_runs": 6, "same_step_reruns": 200, "runs_with_unscrambled_qmc_samplers": 15, "generator_object_seed_reruns": 30, "fresh_process_runs_with_several_samplers": 120, "runs_with_a_foreign_run_inside": 70, "first_drawing_sampler_without_variables": 5, "__nontrivial__": 63},
+            "thorough": {"trace_pairs_compared": 6075, "evaluator_calls_hashed": 57264, "foreign_runs_interleaved": 3000, "seed_sensitivity_checked": 700, "fresh_process_runs": 75, "same_step_reruns": 4000, "runs_with_unscrambled_qmc_samplers": 300, "generator_object_seed_reruns": 600, "fresh_process_runs_with_several_samplers": 700, "runs_with_a_foreign_run_inside": 1400, "__nontrivial__": 1245}}
 N = {"quick": 120, "thorough": 2500}
 SAMPLERS = ["norm", "uniform", "truncnorm", "sobol", "halton", "lhs"]
 
@@ -66,6 +66,11 @@ def gen_spec(rng):
             for smp, nm in zip(spec["samplers"], names):
                 smp["method"] = nm
             spec["_several_qmc"] = True
+    for smp in spec["samplers"]:
+        # documented engine options: an unscrambled (centred) design still draws from the seeded generator where it draws at all
+        if smp["method"].split("/")[-1] in ("lhs", "sobol", "halton") and rng.random() < 0.3:
+            smp["options"] = {"scramble": False}
+            spec["_unscrambled"] = True
     if V > 1 and rng.random() < 0.3:
         m = rng.random(V) < 0.6
         m[int(rng.integers(V))] = True
@@ -250,7 +255,16 @@ def run_case(case, obs):
                 obs.violation("generator_object_given_as_seed_is_consumed", kind=type(make()).__name__, calls=[first[1], second[1]])
                 return
     # seed sensitivity (also after the runs above)
-    if A[3]:
+    # (unscrambled Sobol / Halton sequences are the same for every seed: the seed-sensitivity check needs a sampler that draws)
+    free = np.ones(spec["V"], dtype=bool) if spec.get("mask") is None else np.array(spec["mask"], dtype=bool)
+    draws = False
+    for k, sm in enumerate(spec["samplers"]):
+        handles = free & (np.array(spec["smap"]) == k) if spec.get("smap") is not None else (free if k == 0 else np.zeros_like(free))
+        if handles.any() and sm.get("options", {}).get("scramble") is not False:      # (an unscrambled design of a few points may coincide for two seeds)
+            draws = True
+    if spec.get("_unscrambled"):
+        obs.count("runs_with_unscrambled_qmc_samplers")
+    if A[3] and draws:
         other = json.loads(json.dumps(spec))
         other["seed"] = (spec["seed"] + 1) if isinstance(spec["seed"], int) else [spec["seed"][0], spec["seed"][1] + 1]
         S = run_trace(other)
